@@ -154,7 +154,8 @@ def execute(ex, seed, budget, log_file):
     sea = ex._search_space
     out = {"status": "ok", "err": None, "f": None, "fes": None, "li": None,
            "xkey": None, "ykey": None, "fs": None, "archive": None,
-           "algo": str(ex._algorithm), "log": log_file}
+           "algo": str(ex._algorithm), "log": log_file,
+           "objective": str(ex._objective)}
     try:
         with ex.execute() as p:
             out["fes"] = int(p.get_consumed_fes())
@@ -954,8 +955,8 @@ def dyn_instance(kind, idx):
     return SystemModel(s, orig.controller, orig.model)
 
 
-def dyn_model_value(inst, x):
-    """exp(mean(log(J+1)))-1 over the training cases, J by the ODE model."""
+def dyn_model_value(inst, x, variant):
+    """Mean / exp(mean(log(J+1)))-1 over the training cases, J by model."""
     from moptipyapps.dynamic_control.ode import run_ode
     s = inst.system
     js = []
@@ -965,11 +966,14 @@ def dyn_model_value(inst, x):
                       s.training_steps, s.training_time)
         js.append(MODE.j_float(ode.tolist(), s.state_dims,
                                s.state_dims_in_j, s.gamma))
-    return MODE.combine(js, "le")[0]
+    return MODE.combine(js, variant)[0]
 
 
 def dyn_check(spec, root):
-    from moptipyapps.dynamic_control.objective import FigureOfMeritLE
+    from moptipyapps.dynamic_control.objective import (
+        FigureOfMerit,
+        FigureOfMeritLE,
+    )
     kind = spec["family"][4:]
     idx = spec["idx"]
     if dyn_names(kind)[idx] != spec["inst"]:
@@ -1002,21 +1006,28 @@ def dyn_check(spec, root):
         if not X.in_box(x, sp.lower_bound, sp.upper_bound):
             probs.append(("parameters-outside-the-box", f"best x {x}"))
         else:
-            ob = FigureOfMeritLE(inst)
+            variant = {"figureOfMeritLE": (FigureOfMeritLE, "le"),
+                       "figureOfMerit": (FigureOfMerit, "mean")}.get(
+                o["objective"])
+            if variant is None:
+                raise HarnessError(f"objective {o['objective']!r} of the "
+                                   "controller synthesis setup is unknown "
+                                   "to the check")
+            ob = variant[0](inst)
             ob.initialize()
             fresh = ob.evaluate(np.array(x, dtype=float))
             if fresh != o["f"]:
                 probs.append(("best-f-vs-fresh-objective", f"best f "
-                              f"{o['f']!r} but a fresh FigureOfMeritLE "
+                              f"{o['f']!r} but a fresh {o['objective']} "
                               f"gives {fresh!r}"))
-            exp = dyn_model_value(inst, x)
+            exp = dyn_model_value(inst, x, variant[1])
             if not X.close(exp, o["f"], 1e-9):
                 probs.append(("best-f-vs-model", f"best f {o['f']!r} but "
                               f"the model of the figure of merit gives "
                               f"{exp!r}"))
         if o["log"] is not None:
             logged_state_checks(o, spec["budget"], spec["seed"], probs, {
-                "a.name": o["algo"], "f.name": "figureOfMeritLE"})
+                "a.name": o["algo"], "f.name": o["objective"]})
     replication(o, o2, probs)
     return probs, info
 
